@@ -9,11 +9,11 @@ TRUST = "Trusted: the harness (SimIo, virtual time, executor), the independent r
 def ck(level, tech, text, ref):
     return (level, tech, text, TRUST, ref)
 CHECKS = {
- "C01": ck("exploration", "online trace monitor: independent strict MQTT 5 decoder over every byte written to the simulated transport, under seeded fault/partial-write/cancellation schedules",
+ "C01": ck("exploration", "online trace monitor: independent strict MQTT 5 decoder over every byte written to the simulated transport; cancellation injected at every await index of every operation of base programs (cancel-X-after-n-bytes-then-Y matrix) plus seeded fault/partial-write schedules",
          "Every connection's outbound stream from thousands of generated hostile executions of the real client is decoded by an independent strict decoder; a violation is a concrete replayable execution.", "DESIGN.md 3/C01"),
- "C02": ck("fault_enumeration", "offline history monitor (per accepted message: transmissions, acks consumed) over executions with injected connection loss and resumed reconnects",
+ "C02": ck("fault_enumeration", "offline history monitor (per accepted message: transmissions, acks consumed); connection killed at every I/O call index of base programs (crash-point sweep) plus random histories, resumed reconnects, benign continuation",
          "Per accepted QoS 1 message the recorded history is checked for: one transmission per connection, byte identity except DUP, order, no send after PUBACK, replay on every drained resumed connection, completion after a benign continuation. Connection loss is injected by seeded faults at random I/O indices, broker close/DISCONNECT, handle drop/forget.", "DESIGN.md 3/C02"),
- "C03": ck("fault_enumeration", "offline history monitor of the four-step QoS 2 exchange under injected connection loss between any two steps",
+ "C03": ck("fault_enumeration", "offline history monitor of the four-step QoS 2 exchange; connection killed at every I/O call index of QoS 2-heavy base programs (between any two of the four steps) plus random histories",
          "QoS 2-heavy histories with PUBREC/PUBCOMP in arbitrary order and failure codes; PUBREL only after successful PUBREC, never PUBLISH after PUBREC, PUBREL replay order = PUBREC arrival order, exactly one replay per resumed drained connection.", "DESIGN.md 3/C03"),
  "C04": ck("exploration", "reference receiver model (expected deliveries and acknowledgement sequence) compared with observed deliveries and decoded acks",
          "The reference broker originates publishes of all QoS / identifier / property / size shapes plus retransmissions and PUBRELs; a small deterministic receiver model predicts what must be delivered and which acks must appear in which order.", "DESIGN.md 3/C04"),
